@@ -125,15 +125,20 @@ class Scenario:
         self.initial = np.array(grid.points, dtype=float).copy()
         self.clamps = []  # (spec, clamp, junction index)
         self.links = []  # (spec, link, leader index, follower index)
+        live = bool(case.get("live")) and self.mesh is not None
         for spec in case["clamps"]:
             idx = self.index_of[tuple(spec["at"])]
-            clamp = self.make_clamp(spec, self.initial[idx])
+            # `live`: the clamp is built from the vertex' own position array (the idiom of the examples)
+            clamp = self.make_clamp(spec, self.mesh.vertices[idx].position if live else self.initial[idx])
             self.opt.add_clamp(clamp)
             self.clamps.append((spec, clamp, idx))
         for spec in case["links"]:
             li = self.index_of[tuple(spec["leader"])]
             fi = self.index_of[tuple(spec["follower"])]
-            link = self.make_link(spec, self.initial[li], self.initial[fi])
+            if live:
+                link = self.make_link(spec, self.mesh.vertices[li].position, self.mesh.vertices[fi].position)
+            else:
+                link = self.make_link(spec, self.initial[li], self.initial[fi])
             self.opt.add_link(link)
             self.links.append((spec, link, li, fi))
 
@@ -166,6 +171,9 @@ class Scenario:
                 p1 = _to_world(self.case, spec["exact_ends"][0])
                 p2 = _to_world(self.case, spec["exact_ends"][1])
             b = spec.get("bounds")
+            if spec.get("from_vertex"):
+                # LineClamp(v.position, v.position, v.position + dx, bounds): the first point IS the array passed in
+                return cb.LineClamp(p, p, p + spec["b"] * d, tuple(b) if b else None)
             return cb.LineClamp(p, p1, p2, tuple(b) if b else None)
         if t == "plane":
             return cb.PlaneClamp(p, p, _dir_world(self.case, spec["normal"]))
@@ -376,19 +384,44 @@ class Recorder:
 
         self.orig_minimize = scipy.optimize.minimize
         self.orig_fprime = scipy.optimize.approx_fprime
-        self.orig_update = self.grid.update
         orig_reporter = om.ClampOptimizationData
         scipy.optimize.minimize = self.minimize
         scipy.optimize.approx_fprime = self.approx_fprime
-        self.grid.update = self.update  # instance attribute shadows the method
+        self.attach(self.grid)
         om.ClampOptimizationData = Reporter
         try:
             yield self
         finally:
             scipy.optimize.minimize = self.orig_minimize
             scipy.optimize.approx_fprime = self.orig_fprime
-            del self.grid.update
+            self.detach()
             om.ClampOptimizationData = orig_reporter
+
+    def attach(self, grid) -> None:
+        """(re)binds the recorder to a grid: the instance attribute `update` shadows the method"""
+        self.detach()
+        if grid is not self.grid:
+            # junction quality sums over a *set* of cells: its last bit depends on the grid instance, so the
+            # junction table is per grid (grid quality, clamp functions and links stay shared across calls)
+            self.J = {}
+        self.grid = grid
+        self.orig_update = grid.update
+        grid.update = self.update
+        self._attached = grid
+
+    def detach(self) -> None:
+        g = getattr(self, "_attached", None)
+        if g is not None:
+            del g.update
+            self._attached = None
+
+    def begin_call(self) -> None:
+        """a new optimize() call: fresh event / reporter lists; the oracle tables keep accumulating, so a clamp
+        function or link that answers differently in a later call shows up as a conflict"""
+        self.events = []
+        self.reporters = []
+        self.clamp_no = None
+        self.cur = None
 
 
 def _dots(xs) -> str:
@@ -416,6 +449,9 @@ class C13(core.Check):
         "(followers clamped / shared; correspondence and frame only), degenerate (a bound that collapses a quad), "
         "deglink (the same with translation links led by the clamp: skip must put the followers back), radial "
         "(bounded RadialClamp at radius 0.3..0.7 with the optimum beyond the bounds; admissible arc taken from the case), "
+        "reuse (clamps / links built from the live vertex.position arrays, two or three optimize() calls with different "
+        "methods, the last possibly from a new optimizer re-using the clamp objects; every call modelled and judged "
+        "against the geometry given at the start), "
         "boundary (0 iterations, no clamps, auto_optimize). Non-trivial = at least one accepted (improved) step or a "
         "rollback / skip; distinct = different case description."
     )
@@ -682,6 +718,42 @@ class C13(core.Check):
         )
         return case
 
+    def _gen_reuse(self, rng: random.Random, tier: str) -> dict:
+        """round 3: histories and aliasing.  Clamps and links are built from the vertices' own position arrays (the
+        idiom of the examples: LineClamp(v.position, v.position, v.position + dx, bounds)), optimize() is called two
+        or three times with different methods, the last time possibly from a NEW optimizer that re-uses the clamp
+        and link objects after the first back-port.  Every call is judged against the geometry given at the start."""
+        if rng.random() < 0.6:
+            dims = rng.choice([[2, 2, 1], [2, 1, 1], [1, 2, 1]])
+            case: Dict[str, Any] = {"kind": "mesh", "dims": dims, "frame": rng.choice(list(FRAMES)), "stream": "reuse"}
+            lat = lattice_points(case)
+            jitter = {p: [rng.randint(-5, 5) / 64 for _ in range(3)] for p in lat}
+            a = 0 if dims[0] == 2 else 1
+            at = tuple(1 if i == a or (i < 2 and dims[i] == 2) else rng.choice([0, 1]) for i in range(3))
+            sign = rng.choice([-1, 1])
+            d = [0.0, 0.0, 0.0]
+            d[a] = float(sign)
+            disp = rng.randint(22, 30) / 64  # the vertex sits 0.34 .. 0.47 away from where it should be, along the line
+            jitter[at] = [disp * x for x in d]
+            bound = rng.randint(5, 8) / 64  # it may slide 0.08 .. 0.125 to either side
+            clamps = [{"at": list(at), "type": "line", "dir": d, "a": 0.0, "b": 1.0, "from_vertex": True, "bounds": [-bound, bound]}]
+            links = []
+            if rng.random() < 0.4:
+                f = rng.choice([p for p in lat if p != at])
+                links.append({"leader": list(at), "follower": list(f), "type": "translation"})
+            case.update({"jitter": [jitter[p] for p in lat], "clamps": clamps, "links": links, "tolerance": 0.1, "np_seed": 1})
+        else:
+            while True:
+                case = self._gen_valid(rng, tier, "reuse")
+                if case["kind"] == "mesh":
+                    break
+        n_calls = rng.choice([2, 2, 3])
+        calls = [[rng.choice(METHODS), rng.choice([1, 1, 2]), False] for _ in range(n_calls)]
+        if rng.random() < 0.6:
+            calls[-1][2] = True
+        case.update({"live": True, "calls": calls, "method": calls[-1][0], "max_iterations": calls[-1][1]})
+        return case
+
     def _gen_symfree(self, rng: random.Random) -> dict:
         """a free clamp leading one or two links, the first a symmetry link whose plane does not pass through the
         origin (what `functions.mirror` used to spoil), at least two iterations"""
@@ -740,6 +812,7 @@ class C13(core.Check):
         cases += [self._gen_degenerate(rng) for _ in range(3 if tier == "quick" else 20)]
         cases += [self._gen_deglink(rng) for _ in range(5 if tier == "quick" else 24)]
         cases += [self._gen_radial_small(rng) for _ in range(4 if tier == "quick" else 32)]
+        cases += [self._gen_reuse(rng, tier) for _ in range(5 if tier == "quick" else 40)]
         for _ in range(1 if tier == "quick" else 5):
             cases += self._gen_boundary(rng, tier)
         return cases
@@ -752,58 +825,83 @@ class C13(core.Check):
             sc = Scenario(case)
         except Exception as e:  # the scenario cannot be set up (e.g. clamp constructor rejects): not a case
             return {"setup_error": f"{type(e).__name__}: {e}"[:300], "setup_exc": type(e).__name__}
-        opt = sc.opt
-        grid = opt.grid
         rec = Recorder(sc)
         obs: Dict[str, Any] = {}
-        obs["links"] = [[li, fi, n] for n, (_, _, li, fi) in enumerate(sc.links)]
-        obs["pts0"] = list(rec.state())
-        try:
-            q0 = float(grid.quality)
-        except ValueError:
-            q0 = None
-        obs["q0"] = q0
-        rec.record_rest()
-        raised = None
-        driver = None
+        calls = case.get("calls") or [[case["method"], case["max_iterations"], False]]
+        per_call: List[Dict[str, Any]] = []
         buf = io.StringIO()
         with rec.patched(), contextlib.redirect_stdout(buf):
-            try:
-                run = opt.auto_optimize if case.get("auto") else opt.optimize
-                driver = run(max_iterations=case["max_iterations"], tolerance=case["tolerance"], method=case["method"])
-            except ValueError as e:
-                raised = f"ValueError: {e}"[:200]
-        rec.record_rest()
-        rec.ensure_clamps()
-        clamp_objs = [rec.clamp_by_idx[rec.idx_of_clamp[j]] for j in range(len(rec.clamp_by_idx))]
-        spec_of = {id(c): n for n, (_, c, _) in enumerate(sc.clamps)}
-        obs["clamp_idx"] = [rec.idx_of_clamp[j] for j in range(len(clamp_objs))]
-        obs["clamp_spec"] = [spec_of.get(id(c), -1) for c in clamp_objs]
-        obs["prm0"] = rec.prm0
-        obs["clamp_pos0"] = rec.clamp_pos0
-        obs["raised"] = raised
-        obs["final"] = list(rec.state())
-        obs["final_prm"] = [rec.prmid(c.params) for c in clamp_objs]
-        obs["final_prm_vals"] = [[float(v) for v in np.asarray(c.params).ravel()] for c in clamp_objs]
-        try:
-            obs["q1"] = float(grid.quality)
-        except ValueError:
-            obs["q1"] = None
-        if sc.mesh is not None:
-            back = [rec.pid(v.position) for v in sc.mesh.vertices]
-        else:
-            back = [rec.pid(p) for p in sc.sketch.positions]
-        obs["back"] = back
-        obs["hist"] = [[it.initial_quality, it.final_quality] for it in driver.iterations] if driver is not None else None
-        obs["reporters"] = [
-            {"idx": r.index, "flag": "S" if r.skipped else ("R" if r.rolled_back else "I"), "gi": r.grid_initial, "gf": r.grid_final}
-            for r in rec.reporters
-        ]
-        obs["events"] = rec.events
+            for method, max_iterations, fresh in calls:
+                if fresh:
+                    # a new optimizer for the same mesh / sketch, re-using the clamp and link objects
+                    from classy_blocks.optimize.optimizer import MeshOptimizer, SketchOptimizer
+
+                    sc.opt = MeshOptimizer(sc.mesh, report=False) if sc.mesh is not None else SketchOptimizer(sc.sketch, report=False)
+                    try:
+                        for _, clamp, _ in sc.clamps:
+                            sc.opt.add_clamp(clamp)
+                        for _, link, _, _ in sc.links:
+                            sc.opt.add_link(link)
+                    except Exception as e:
+                        return {"setup_error": f"re-using clamps in a new optimizer: {type(e).__name__}: {e}"[:300], "setup_exc": type(e).__name__}
+                    rec.attach(sc.opt.grid)
+                opt = sc.opt
+                grid = opt.grid
+                rec.begin_call()
+                co: Dict[str, Any] = {}
+                co["links"] = [[li, fi, n] for n, (_, _, li, fi) in enumerate(sc.links)]
+                co["pts0"] = list(rec.state())
+                try:
+                    co["q0"] = float(grid.quality)
+                except ValueError:
+                    co["q0"] = None
+                rec.record_rest()
+                raised = None
+                driver = None
+                try:
+                    run = opt.auto_optimize if case.get("auto") else opt.optimize
+                    driver = run(max_iterations=max_iterations, tolerance=case["tolerance"], method=method)
+                except ValueError as e:
+                    raised = f"ValueError: {e}"[:200]
+                rec.record_rest()
+                rec.ensure_clamps()
+                clamp_objs = [rec.clamp_by_idx[rec.idx_of_clamp[j]] for j in range(len(rec.clamp_by_idx))]
+                spec_of = {id(c): n for n, (_, c, _) in enumerate(sc.clamps)}
+                co["max_iterations"] = max_iterations
+                co["clamp_idx"] = [rec.idx_of_clamp[j] for j in range(len(clamp_objs))]
+                co["clamp_spec"] = [spec_of.get(id(c), -1) for c in clamp_objs]
+                co["prm0"] = rec.prm0
+                co["clamp_pos0"] = rec.clamp_pos0
+                co["raised"] = raised
+                co["final"] = list(rec.state())
+                co["final_prm"] = [rec.prmid(c.params) for c in clamp_objs]
+                co["final_prm_vals"] = [[float(v) for v in np.asarray(c.params).ravel()] for c in clamp_objs]
+                try:
+                    co["q1"] = float(grid.quality)
+                except ValueError:
+                    co["q1"] = None
+                if sc.mesh is not None:
+                    co["back"] = [rec.pid(v.position) for v in sc.mesh.vertices]
+                else:
+                    co["back"] = [rec.pid(p) for p in sc.sketch.positions]
+                co["hist"] = [[it.initial_quality, it.final_quality] for it in driver.iterations] if driver is not None else None
+                co["reporters"] = [
+                    {"idx": r.index, "flag": "S" if r.skipped else ("R" if r.rolled_back else "I"), "gi": r.grid_initial, "gf": r.grid_final}
+                    for r in rec.reporters
+                ]
+                co["events"] = rec.events
+                co["J"] = [[k[0], list(k[1]), v] for k, v in rec.J.items()]
+                per_call.append(co)
+                if raised is not None:
+                    break
+        # the last call at top level (what single-call cases always had), earlier ones under "prev"
+        obs.update(per_call[-1])
+        obs["prev"] = per_call[:-1]
+        obs["orig_pts0"] = per_call[0]["pts0"]
+        obs["orig_q0"] = per_call[0]["q0"]
         obs["pos"] = [[k[0], k[1], v] for k, v in rec.pos.items()]
         obs["lnk"] = [[k[0], k[1], v] for k, v in rec.lnk.items()]
         obs["G"] = [[list(k), v] for k, v in rec.G.items()]
-        obs["J"] = [[k[0], list(k[1]), v] for k, v in rec.J.items()]
         obs["conflicts"] = rec.conflicts[:5]
         obs["points"] = rec.pt_vals
         obs["quads"] = sc.quads
@@ -834,9 +932,17 @@ class C13(core.Check):
                 cur["solves"].append(ev)
         return its
 
+    @staticmethod
+    def _per_call(impl: dict) -> List[dict]:
+        """one observation per optimize() call: the earlier calls merged with the shared tables, then the last"""
+        return [dict(impl, **co) for co in impl.get("prev", [])] + [impl]
+
     def requests(self, case: dict, impl: Any) -> List[str]:
         if "setup_error" in impl:
             return []
+        return [self._request_one(case, c) for c in self._per_call(impl)]
+
+    def _request_one(self, case: dict, impl: Any) -> str:
         its = self._iterations(impl)
         sched = []
         for it in its:
@@ -860,17 +966,23 @@ class C13(core.Check):
                 "[" + ",".join(f"{a}:{b}:{c}" for a, b, c in impl["lnk"]) + "]",
                 "[" + ",".join(f"{_dots(k)}={_q(v)}" for k, v in impl["G"]) + "]",
                 "[" + ",".join(f"{i}@{_dots(k)}={_q(v)}" for i, k, v in impl["J"]) + "]",
-                f"{case['max_iterations']}:{core.rat(case['tolerance'])}",
+                f"{impl['max_iterations']}:{core.rat(case['tolerance'])}",
                 "|".join(sched) if sched else "-",
                 back,
             ]
         )
-        return [line]
+        return line
 
     def compare(self, case: dict, impl: Any, model: List[str]) -> Optional[str]:
         if impl.get("conflicts"):
-            return "recorded oracle graphs are not functional: " + "; ".join(impl["conflicts"])
-        ans = model[0]
+            return "recorded oracle graphs are not functional (a clamp function / link / quality answered differently for the same argument): " + "; ".join(impl["conflicts"])
+        for n, (c, ans) in enumerate(zip(self._per_call(impl), model)):
+            why = self._compare_one(case, c, ans)
+            if why:
+                return (f"optimize() call {n + 1}: " if len(model) > 1 else "") + why
+        return None
+
+    def _compare_one(self, case: dict, impl: Any, ans: str) -> Optional[str]:
         if ans == "bad-op":
             return "model rejects the request (bad-op)"
         fields = dict(tok.split("=", 1) for tok in ans.split(" "))
@@ -920,8 +1032,24 @@ class C13(core.Check):
             if case.get("stream") != "overlap":
                 out.append({"site": f"setup:{impl.get('setup_exc')}", "what": f"valid configuration rejected: {impl['setup_error']}", "observed": impl["setup_error"], "expected": "optimizer accepts the clamps and links"})
             return out
+        # every optimize() call of the case is judged, always against the geometry the user gave at the start
+        calls = self._per_call(impl)
+        for n, c in enumerate(calls):
+            for v in self._oracle_one(case, c):
+                if len(calls) > 1:
+                    v["what"] = f"after optimize() call {n + 1} of {len(calls)}: " + v["what"]
+                out.append(v)
+            if out:
+                break
+        return out
+
+    def _oracle_one(self, case: dict, impl: Any) -> List[dict]:
+        import numpy as np
+
+        out: List[dict] = []
         pts = impl["points"]
-        P0 = np.array([pts[i] for i in impl["pts0"]])
+        ref = impl.get("orig_pts0", impl["pts0"])  # positions before the first call
+        P0 = np.array([pts[i] for i in ref])
         P1 = np.array([pts[i] for i in impl["final"]])
         if impl["q0"] is None:
             return out  # the initial grid is already degenerate: outside the property's quantifier
@@ -944,7 +1072,7 @@ class C13(core.Check):
         clamped = set(impl["clamp_idx"])
         followers = {l["follower"] for l in impl["link_data"] if l["leader"] in clamped}
         for i in range(len(P0)):
-            if i not in clamped and i not in followers and impl["pts0"][i] != impl["final"][i]:
+            if i not in clamped and i not in followers and ref[i] != impl["final"][i]:
                 out.append({"site": "optimize:unclamped-vertex-moved", "what": f"vertex {i} moved from {P0[i].tolist()} to {P1[i].tolist()}", "observed": P1[i].tolist(), "expected": P0[i].tolist()})
                 break
         # 5. back-port
@@ -1001,7 +1129,11 @@ class C13(core.Check):
         flags = "".join(sorted({r["flag"] for r in impl.get("reporters", [])}))
         types = "+".join(sorted({c["type"] for c in case["clamps"]})) or "none"
         links = "+".join(sorted({l["type"][:3] for l in case["links"]})) or "nolink"
-        return f"{case['stream']}:{case['kind']}:{case['method']}:{types}:{links}:{flags or '-'}" + (":raised" if impl.get("raised") else "")
+        calls = case.get("calls")
+        method = case["method"] if not calls else "+".join(c[0] for c in calls) + ("(new)" if calls[-1][2] else "")
+        if calls:
+            flags = "/".join("".join(sorted({r["flag"] for r in c.get("reporters", [])})) or "-" for c in self._per_call(impl))
+        return f"{case['stream']}:{case['kind']}:{method}:{types}:{links}:{flags or '-'}" + (":raised" if impl.get("raised") else "")
 
 
 class _Geo:
